@@ -36,7 +36,7 @@ func (e *Engine) VerifyFunction(fn *ssa.Function, con *Contract, prof *Profile) 
 	c.decls = append(c.decls, "(declare-const alloc@0 Int)")
 	c.facts = append(c.facts, "(> alloc@0 1)")
 	st := &State{ver: map[string]string{}, alloc: "alloc@0", names: map[string]Term{}, g: "true"}
-	fr := &frame{fn: fn, con: con, top: true, params: map[string]Term{}, lets: map[string]Term{}}
+	fr := &frame{fn: fn, con: con, top: true, params: map[string]Term{}, lets: map[string]Term{}, atCallSeen: map[string]int{}}
 	for _, p := range fn.Params {
 		srt := c.sortOf(p.Type())
 		t := Term{S: c.fresh("p_"+p.Name(), srt), Sort: srt, T: p.Type()}
@@ -108,6 +108,23 @@ func (e *Engine) VerifyFunction(fn *ssa.Function, con *Contract, prof *Profile) 
 				}
 			}
 		}
+		if prof.DefaultHavoc && !con.ModAll {
+			// ghost profiles: the ghost state may change only where the contract says so
+			var regs []string
+			for r := range rst.ver {
+				if strings.HasPrefix(r, "G_") {
+					regs = append(regs, r)
+				}
+			}
+			sort.Strings(regs)
+			for _, r := range regs {
+				cur := c.get(rst, r)
+				if whole[r] || cur == r+"@0" {
+					continue
+				}
+				c.oblige("frame", fmt.Sprintf("frame#%s@r%d", r, k), g, fmt.Sprintf("(= %s %s@0)", cur, r), "ghost "+r+" not in modifies")
+			}
+		}
 		if !con.ModAll && !prof.DefaultHavoc {
 			var regs []string
 			for r := range rst.ver {
@@ -136,6 +153,12 @@ func (e *Engine) VerifyFunction(fn *ssa.Function, con *Contract, prof *Profile) 
 					fmt.Sprintf("(forall ((q_r Int)) (=> (and (<= 0 q_r) (< q_r alloc@0) %s) (= (select %s q_r) (select %s@0 q_r))))", strings.Join(ne, " "), cur, r),
 					"only locations listed in modifies change in region "+r)
 			}
+		}
+	}
+	// an at_call clause whose callee is never called is unbound (the call it guarded is gone)
+	for callee := range con.AtCall {
+		if fr.atCallSeen[callee] == 0 {
+			c.fail("contract unbound: at_call %s: %s no longer calls it", callee, funcKey(fn))
 		}
 	}
 	res.Obls = c.obls
